@@ -99,6 +99,12 @@ impl Block for ZeroCrossing {
         } else {
             o.len()
         };
+        if max_out == 0 {
+            // `dst` has room (checked above), so the clock stream is full.
+            if let Some(clock) = &self.out_clock {
+                return Ok(BlockRet::WaitForStream(clock, 1));
+            }
+        }
         for sample in input.iter() {
             if opos == max_out {
                 // Output full. Stop before touching the next sample, so that
